@@ -15,6 +15,7 @@ RULE = ('tee_map with 2-4 branches drawn from {identity, filter, duplicate (map+
         'the joined sequence at every step. Same on plain observables for all item sequences. tee_map under '
         'group_by/roll/split and nested in tee_map is compared with the reference interpreter. Non-trivial = branches that '
         'emit different numbers of items on a history with >= 2 items.')
+DEEP_PROBES = ('a far key index (130); one branch producing 255..512 values while another stays silent; one operator object applied to two sources; 200 (16 500 thorough) live keys')
 ASSUMPTIONS = ['branch pipelines are deterministic, so a branch run alone produces what it produces inside tee_map',
                'zip/combine_latest over overlapping-roll branches only in the differential family (branch order taken from the real branch run)']
 LEVEL_TEXT = ('Bounded-exhaustive model checking of the real tee_map (mux and plain paths) with a differential oracle: the '
